@@ -72,7 +72,9 @@ def r41(F):
     ok = ("param", 3) in l0 and ("field", "documents") not in l0 and ("field", "documents") not in l2 and ("field", "workspace") in l2
     r.inst("update_document:analyze-inputs", ud.where(bb), ok, "analyze(content argument, workspace cache)" if ok else "analyze is fed from something else than the content argument and the workspace cache")
     acc = field_accesses(F, STATE, "documents")
-    writers = sorted({(a[1].split("::")[-1], c.split("::")[-1]) for a in acc if a[0] == "mutref" for c, _ in a[3]})
+    from .. import flatten
+    homes = {STATE + "::update_document", "ucglib::lsp::handle_notification"} | {n for n in F.fns if n.endswith("::handle_notification")}
+    writers = sorted({(flatten.home(F, a[1], homes).split("::")[-1], c.split("::")[-1]) for a in acc if a[0] == "mutref" for c, _ in a[3]})
     assigns = sorted({a[1] for a in acc if a[0] == "assign"})
     ok = set(writers) <= {("update_document", "insert"), ("handle_notification", "remove")} and not assigns
     r.inst("ServerState.documents:writers", "src/lsp/mod.rs", ok, "written by %s" % writers if ok else "documents written by %s / assigned in %s" % (writers, assigns))
@@ -155,7 +157,9 @@ def r89(F):
             o = Origins(fn)
             t = fn.term(b)
             labs = o.at(t["args"][2], b)
-            from_disk = any(c.endswith(("fs::read_to_string", "::read_to_string", "fs::read")) for c in calls_in(labs))
+            # read here, or handed over by topo_sort_files (which reads every file it lists from disk: the index_all instance)
+            from_disk = any(c.endswith(("fs::read_to_string", "::read_to_string", "fs::read", "::topo_sort_files")) for c in calls_in(labs)) and \
+                not any(l[0] == "param" and fn.local_ty(l[1]).replace("&", "").strip() in ("str", "alloc::string::String") for l in labs)
             r.inst("files<-%s<-%s" % (short, n.split("::")[-2] + "::" + n.split("::")[-1]), fn.where(b), from_disk,
                    "content read from disk" if from_disk else
                    "the editor's unsaved text of one document enters the cache other documents' imports are resolved from: opening a.ucg "
